@@ -166,6 +166,16 @@ theorem nf_var_limit_witness (nf : NF) :
       && decide ((dedupStrings c.syms).length > 8)) = true := by decide
   simp only [convertToBoolExpression, nfCall, h, if_true]
 
+/-- defect in the *parameter* (sympy 1.12 `to_anf` maps `~(a ^ ~a)` to `True`): with a normal
+form that is not semantics-preserving the printed expression is wrong — `NFSpec.sound` is a
+necessary hypothesis, and it is validated on every call of a run -/
+theorem anf_unsound_witness :
+    let nf : NF := fun _ _ => .ok .tt
+    let c : BExp := .not (.xor [.sym "a", .not (.sym "a")])
+    convertToBoolExpression Quirks.none nf .anf c = .ok .tt
+      ∧ (BExp.tt).eval (fun _ => false) = true ∧ c.eval (fun _ => false) = false :=
+  ⟨rfl, by decide, by decide⟩
+
 /-! ## DIMACS -/
 
 /-- For **every** list of clauses of literals, every quirk set whose trigger the list avoids and
